@@ -2160,6 +2160,11 @@ class Evaluator:
         root = name.split('.')[0]
         a = args = [unq(x) for x in args]
         numeric = all(is_num(x) for x in a)
+        if name == 'operator.index' and len(a) == 1 and is_num(a[0]) and not kwargs:
+            # the integer itself as a Python int (for integer inputs the same conversion as int())
+            if isinstance(a[0], (sp.floor, sp.ceiling, sp.Integer)) or a[0].is_integer is True:
+                return a[0]
+            return sp.Function('int')(a[0])
         if root in ('numpy', 'np', 'math') or name in ('abs', 'max', 'min', 'float', 'int',
                                                        'cos', 'sin', 'sqrt', 'fabs', 'asin', 'acos'):
             if short in ('cos', 'sin') and len(a) == 1 and is_num(a[0]):
